@@ -6,6 +6,7 @@ import (
 	"math/big"
 	"math/rand"
 	"reflect"
+	"regexp"
 	"sort"
 	"strconv"
 	"strings"
@@ -243,10 +244,13 @@ func edgeValues(k kind) []interface{} {
 		return out
 	}
 	switch k {
-	case kFloat:
-		return []interface{}{1e18, -1e18, 1e300, -1e300, 9007199254740992.0, 1e-300}
+	case kFloat, kDefNaN:
+		return []interface{}{1e18, -1e18, 1e300, -1e300, 9007199254740992.0, 1e-300,
+			math.NaN(), math.NaN(), math.Inf(1), math.Inf(-1), math.Copysign(0, -1), 5e-324, -5e-324, 2.2250738585072014e-308}
 	case kFloat32:
-		return []interface{}{1e30, -1e30, 16777217.0}
+		return []interface{}{1e30, -1e30, 16777217.0,
+			math.NaN(), math.NaN(), math.Inf(1), math.Inf(-1), math.Copysign(0, -1),
+			float64(math.SmallestNonzeroFloat32), -float64(math.SmallestNonzeroFloat32)}
 	case kDur:
 		return []interface{}{2562047 * time.Hour, -2562047 * time.Hour, 1000 * time.Hour, -1000 * time.Hour}
 	}
@@ -261,11 +265,32 @@ func isEdgeValue(v interface{}) bool {
 	case int64:
 		return x > 100000 || x < -100000
 	case float64:
-		return math.Abs(x) > 100000 || x != 0 && math.Abs(x) < 0.25
+		return floatClass(x) != "" || math.Abs(x) > 100000 || x != 0 && math.Abs(x) < 0.25
 	case time.Duration:
 		return x > 100*time.Hour || x < -100*time.Hour
 	}
 	return false
+}
+
+// floatClass names the special float values: NaN, the infinities, negative
+// zero and subnormal numbers ("" for every other value).
+func floatClass(v interface{}) string {
+	x, ok := v.(float64)
+	switch {
+	case !ok:
+		return ""
+	case math.IsNaN(x):
+		return "NaN"
+	case math.IsInf(x, 1):
+		return "+Inf"
+	case math.IsInf(x, -1):
+		return "-Inf"
+	case x == 0 && math.Signbit(x):
+		return "negative-zero"
+	case x != 0 && math.Abs(x) < 2.2250738585072014e-308, x != 0 && math.Abs(x) <= float64(math.SmallestNonzeroFloat32):
+		return "subnormal"
+	}
+	return ""
 }
 
 // exactOK: the value satisfies every validator of the domain (integers are
@@ -338,6 +363,9 @@ func pickFrom(r *rand.Rand, vals []interface{}, keep func(interface{}) bool) (in
 }
 
 func (d dom) ok(x float64) bool {
+	if math.IsNaN(x) && (d.hasLo || d.hasHi) {
+		return false // NaN is neither >= nor <= anything
+	}
 	if d.hasLo && x < d.lo || d.hasHi && x > d.hi {
 		return false
 	}
@@ -504,6 +532,8 @@ func initValue(k kind) interface{} {
 		return int64(defLevelInit)
 	case kDefBad:
 		return int64(defBadInit)
+	case kDefNaN:
+		return math.NaN()
 	}
 	return nil
 }
@@ -637,8 +667,14 @@ func (g *pgen) structKids(n *pnode, ctx pctx) {
 		}
 		shape := n.sshape
 		switch {
+		case f.t.k == kPtr && f.t.elem.k.scalar() && f.t.pp:
+			shape = "double-pointer-field"
 		case f.t.k == kPtr && f.t.elem.k.scalar():
 			shape = "pointer-field"
+		case f.t.prt != nil:
+			shape = "pointer-to-collection"
+		case f.t.k == kMap && f.inline:
+			shape = "inline-map"
 		case f.t.k == kIface:
 			shape = "interface-field"
 		}
@@ -702,7 +738,7 @@ func (g *pgen) fixLib(n *pnode, s *tnode) {
 func (g *pgen) leaf(n *pnode, ctx pctx, init interface{}) {
 	r := g.r
 	k, _ := n.leafKind()
-	n.form = r.Intn(4)
+	n.form = r.Intn(8) // low two bits: spelling; bit 2: alternative text of special floats
 	if n.isElem {
 		n.inCfg, n.inPre = ctx.canCfg, ctx.canPre
 		v := elemValue(r, k)
@@ -711,6 +747,13 @@ func (g *pgen) leaf(n *pnode, ctx pctx, init interface{}) {
 			n.preVal = elemValue(r, k)
 		}
 		n.viaVar = g.useVars && n.inCfg && r.Intn(8) == 0
+		// one configured element in ten is an explicit null (the element becomes
+		// the zero value): only where the zero value is valid, no InitDefaults
+		// replaces it, nothing pre-filled sits at the position and the collection
+		// field carries no validators (go-ucfg hands them down to the elements)
+		if n.inCfg && !n.inPre && r.Intn(10) == 0 && nullElemOK(n, k) {
+			n.cfgNull, n.viaVar = true, false
+		}
 		return
 	}
 	if n.f != nil && n.f.ignore {
@@ -762,6 +805,20 @@ func (g *pgen) leaf(n *pnode, ctx pctx, init interface{}) {
 	case "default":
 		n.inPre, n.preVal = true, d.valid(r)
 	}
+}
+
+// zeroValid: the zero value of the kind passes the kind's own Validate.
+func zeroValid(k kind) bool {
+	lo, _, hasLo, _ := intrinsic(k)
+	return !(hasLo && lo > 0)
+}
+
+func nullElemOK(n *pnode, k kind) bool {
+	c := n.parent
+	if c == nil || c.f == nil || len(c.f.vals) > 0 || len(c.f.alt) > 0 {
+		return false
+	}
+	return zeroValid(k) && initValue(k) == nil
 }
 
 func (g *pgen) iface(n *pnode, ctx pctx) {
@@ -1003,6 +1060,9 @@ func (g *pgen) mapNode(n *pnode, ctx pctx) {
 		n.inCfg = true
 		return
 	}
+	if n.f != nil && n.f.inline {
+		return // an inline map is present exactly when one of its keys is
+	}
 	g.emptyOrNull(n, ctx, nCfg, n.inPre)
 }
 
@@ -1082,6 +1142,8 @@ type cfgOut struct {
 }
 
 func encode(k kind, v interface{}, form int) interface{} {
+	alt := form&4 != 0
+	form &= 3
 	switch x := v.(type) {
 	case string:
 		return x
@@ -1092,6 +1154,16 @@ func encode(k kind, v interface{}, form int) interface{} {
 				return int(x)
 			}
 		case 3:
+			if alt {
+				switch floatClass(x) {
+				case "NaN":
+					return "nan"
+				case "+Inf":
+					return "inf"
+				case "-Inf":
+					return "-infinity"
+				}
+			}
 			return strconv.FormatFloat(x, 'g', -1, 64)
 		}
 		return x
@@ -1138,7 +1210,7 @@ func (o *cfgOut) leaf(n *pnode) interface{} {
 	v := encode(k, n.cfgVal, n.form)
 	if n.t.k == kIface {
 		// what an interface{} target receives is kept apart by Go type: plain numbers only
-		v = encode(k, n.cfgVal, n.form%3)
+		v = encode(k, n.cfgVal, (n.form&3)%3)
 	}
 	if n.viaVar {
 		if d, ok := n.cfgVal.(time.Duration); ok {
@@ -1204,6 +1276,14 @@ func (o *cfgOut) fields(n *pnode, d map[string]interface{}) {
 		if !k.inCfg {
 			continue
 		}
+		if k.f.inline && k.t.k == kMap {
+			for _, e := range k.kids {
+				if e.inCfg {
+					d[e.key] = o.cfg(e)
+				}
+			}
+			continue
+		}
 		if k.f.inline {
 			o.fields(k, d)
 			continue
@@ -1226,7 +1306,21 @@ func renderCfg(top *pnode) map[string]interface{} {
 // rendering: pre-filled target
 
 func conv(v interface{}, rt reflect.Type) reflect.Value {
+	if rt == tRegexp {
+		s, _ := v.(string)
+		return reflect.ValueOf(regexp.MustCompile(s)).Elem()
+	}
 	return reflect.ValueOf(v).Convert(rt)
+}
+
+// ptrTo wraps a pointer to scalar into the second pointer of a **T field.
+func ptrTo(n *pnode, p reflect.Value) reflect.Value {
+	if !n.t.pp {
+		return p
+	}
+	q := reflect.New(p.Type())
+	q.Elem().Set(p)
+	return q
 }
 
 func (n *pnode) structType() *tnode {
@@ -1240,6 +1334,12 @@ func (n *pnode) structType() *tnode {
 func pre(n *pnode, dst reflect.Value) {
 	if !n.inPre {
 		return
+	}
+	if n.t.prt != nil {
+		// the field is a pointer to the collection
+		p := reflect.New(n.t.rt)
+		dst.Set(p)
+		dst = p.Elem()
 	}
 	switch {
 	case n.structLike():
@@ -1262,7 +1362,7 @@ func pre(n *pnode, dst reflect.Value) {
 	case n.t.k == kPtr:
 		p := reflect.New(n.t.elem.rt)
 		p.Elem().Set(conv(n.preVal, n.t.elem.rt))
-		dst.Set(p)
+		dst.Set(ptrTo(n, p))
 	case n.t.k == kIface:
 		switch x := n.preVal.(type) {
 		case int64:
@@ -1338,7 +1438,19 @@ func apply(n *pnode, dst reflect.Value) {
 		return
 	}
 	if n.cfgNull {
+		if _, leaf := n.leafKind(); leaf && n.isElem && n.t.k.scalar() {
+			dst.Set(reflect.Zero(n.t.rt)) // a null element is the zero value
+		}
 		return
+	}
+	if n.t.prt != nil {
+		if !n.inCfg {
+			return
+		}
+		if dst.IsNil() {
+			dst.Set(reflect.New(n.t.rt))
+		}
+		dst = dst.Elem()
 	}
 	switch {
 	case n.structLike():
@@ -1374,7 +1486,7 @@ func apply(n *pnode, dst reflect.Value) {
 		if n.inCfg {
 			p := reflect.New(n.t.elem.rt)
 			p.Elem().Set(conv(n.cfgVal, n.t.elem.rt))
-			dst.Set(p)
+			dst.Set(ptrTo(n, p))
 		}
 	case n.t.k == kIface:
 		if n.inCfg {
